@@ -68,6 +68,11 @@ func genC08(r *vh.Rand) c08Spec {
 		s.Pad = 900
 		s.MaxBytes = r.Range(2, 5) * 1000
 	}
+	if r.Chance(1, 8) {
+		// the request under test is initialize itself (its answer must be resumable like any other)
+		s.Stream, s.Version, s.K = "initialize", "2025-11-25", 0
+		s.FirstCutMs = 1 + r.Intn(s.GapMs+2) // not at instant 0: whether the session counts as initialized then is a same-instant race
+	}
 	s.Noise = r.Chance(1, 3)
 	if s.Stream == "standalone" && r.Chance(1, 3) {
 		s.JSON = true
@@ -153,6 +158,7 @@ type c08Exchange struct {
 	Status int           `json:"status"`
 	Events []vhm.SSEvent `json:"events"`
 	EOF    bool          `json:"eof"`
+	SID    string        `json:"-"`
 }
 
 func TestVerifC08(t *testing.T) {
@@ -184,6 +190,7 @@ func parseEID(id string) (stream string, idx int, ok bool) {
 func runC08(c *vh.Case, spec c08Spec) {
 	log := c.Log
 	ctx := context.Background()
+	isReq := spec.Stream == "request" || spec.Stream == "initialize"
 	mem := mcp.NewMemoryEventStore(nil)
 	if spec.MaxBytes > 0 {
 		mem.SetMaxBytes(spec.MaxBytes)
@@ -211,28 +218,50 @@ func runC08(c *vh.Case, spec c08Spec) {
 		log.Add("emit", "j", "result")
 		return &mcp.CallToolResult{Content: []mcp.Content{&mcp.TextContent{Text: "result" + pad}}}, nil
 	})
+	if spec.Stream == "initialize" {
+		server.AddReceivingMiddleware(func(next mcp.MethodHandler) mcp.MethodHandler {
+			return func(ctx context.Context, method string, req mcp.Request) (mcp.Result, error) {
+				res, err := next(ctx, method, req)
+				if method == "initialize" {
+					if info := req.GetParams().(*mcp.InitializeParams); info != nil && info.ClientInfo != nil && info.ClientInfo.Name == "raw" {
+						// the session is initialized; its answer is held back, so the stream can be cut
+						// between the priming event and the answer
+						time.Sleep(ms(spec.GapMs))
+						emu.Lock()
+						emitted = append(emitted, "result")
+						emu.Unlock()
+						log.Add("emit", "j", "result")
+					}
+				}
+				return res, err
+			}
+		})
+	}
 	h := mcp.NewStreamableHTTPHandler(func(*http.Request) *mcp.Server { return server }, &mcp.StreamableHTTPOptions{EventStore: store, JSONResponse: spec.JSON})
 	ip := &vhm.InProc{Handler: h}
 	hdr := map[string]string{"Content-Type": "application/json", "Accept": "application/json, text/event-stream"}
 	initMsg := fmt.Sprintf(`{"jsonrpc":"2.0","id":"init","method":"initialize","params":{"protocolVersion":%q,"capabilities":{},"clientInfo":{"name":"raw","version":"0"}}}`, spec.Version)
-	st, rh, _, err := ip.Do(ctx, "POST", "http://example.test/mcp", hdr, []byte(initMsg))
-	if err != nil || st != 200 {
-		c.Inconclusive("initialize: %d %v", st, err)
-		return
-	}
-	sid := rh.Get("Mcp-Session-Id")
-	hdr["Mcp-Session-Id"] = sid
-	hdr["Mcp-Protocol-Version"] = spec.Version
-	ip.Do(ctx, "POST", "http://example.test/mcp", hdr, []byte(`{"jsonrpc":"2.0","method":"notifications/initialized"}`))
-	for ss := range server.Sessions() {
-		ssRef = ss
+	sid := ""
+	if spec.Stream != "initialize" {
+		st, rh, _, err := ip.Do(ctx, "POST", "http://example.test/mcp", hdr, []byte(initMsg))
+		if err != nil || st != 200 {
+			c.Inconclusive("initialize: %d %v", st, err)
+			return
+		}
+		sid = rh.Get("Mcp-Session-Id")
+		hdr["Mcp-Session-Id"] = sid
+		hdr["Mcp-Protocol-Version"] = spec.Version
+		ip.Do(ctx, "POST", "http://example.test/mcp", hdr, []byte(`{"jsonrpc":"2.0","method":"notifications/initialized"}`))
+		for ss := range server.Sessions() {
+			ssRef = ss
+		}
 	}
 	noiseDone := make(chan struct{})
 	closeNoise := func() {}
 	if spec.Noise {
 		// session B: same handler, same event store; it never attaches a stream, so everything sent to it is stored
 		hb := map[string]string{"Content-Type": "application/json", "Accept": "application/json, text/event-stream"}
-		st, rhb, _, err := ip.Do(ctx, "POST", "http://example.test/mcp", hb, []byte(strings.Replace(initMsg, `"init"`, `"initb"`, 1)))
+		st, rhb, _, err := ip.Do(ctx, "POST", "http://example.test/mcp", hb, []byte(strings.Replace(strings.Replace(initMsg, `"init"`, `"initb"`, 1), `"name":"raw"`, `"name":"noise"`, 1)))
 		if err != nil || st != 200 {
 			c.Inconclusive("initialize B: %d %v", st, err)
 			return
@@ -300,6 +329,7 @@ func runC08(c *vh.Case, spec c08Spec) {
 			return ex
 		}
 		ex.Status = resp.StatusCode
+		ex.SID = resp.Header.Get("Mcp-Session-Id")
 		if resp.StatusCode != 200 {
 			resp.Body.Close()
 			log.Add("exchange", "kind", method, "leid", leid, "events", 0, "eof", false, "status", ex.Status)
@@ -327,7 +357,25 @@ func runC08(c *vh.Case, spec c08Spec) {
 	var streamID string
 	totalMs := (spec.K+1)*spec.GapMs + 5
 	bgDone := make(chan struct{})
-	if spec.Stream == "request" {
+	if spec.Stream == "initialize" {
+		ex0 := exchange("POST", "", initMsg, spec.FirstCutMs)
+		exs = append(exs, ex0)
+		close(bgDone)
+		if ex0.SID == "" {
+			// cut before the response headers: the client knows no session and no stream to resume
+			time.Sleep(ms(totalMs + 40))
+			closeNoise()
+			for ss := range server.Sessions() {
+				ss.Close()
+			}
+			ip.Wait()
+			time.Sleep(11 * time.Second)
+			return
+		}
+		sid = ex0.SID
+		hdr["Mcp-Session-Id"] = sid
+		hdr["Mcp-Protocol-Version"] = spec.Version
+	} else if isReq {
 		exs = append(exs, exchange("POST", "", `{"jsonrpc":"2.0","id":7,"method":"tools/call","params":{"name":"emit","arguments":{}}}`, spec.FirstCutMs))
 		close(bgDone)
 	} else {
@@ -400,7 +448,7 @@ func runC08(c *vh.Case, spec c08Spec) {
 	time.Sleep(ms(totalMs + 40))
 	<-bgDone
 	// final: follow to the end, then replay from every id ever received
-	if len(seenIDs) > 0 && spec.Stream == "request" {
+	if len(seenIDs) > 0 && isReq {
 		ex := exchange("GET", seenIDs[len(seenIDs)-1], "", -1)
 		exs = append(exs, ex)
 		note(ex)
@@ -408,7 +456,7 @@ func runC08(c *vh.Case, spec c08Spec) {
 	emu.Lock()
 	nEmitted := len(emitted)
 	emu.Unlock()
-	if spec.Stream == "request" && nEmitted == 0 {
+	if isReq && nEmitted == 0 {
 		// the POST was cut before the server ever saw the request: nothing to decide
 		closeNoise()
 		ip.Do(ctx, "DELETE", "http://example.test/mcp", hdr, nil)
@@ -416,7 +464,7 @@ func runC08(c *vh.Case, spec c08Spec) {
 		time.Sleep(11 * time.Second)
 		return
 	}
-	if spec.Stream == "request" {
+	if isReq {
 		if ls := store.lastStream(); streamID == "" {
 			streamID = ls
 		} else if ls != streamID {
@@ -426,7 +474,7 @@ func runC08(c *vh.Case, spec c08Spec) {
 	}
 	truth := store.truth(sid, streamID)
 	finals := map[string]c08Exchange{}
-	if spec.Stream == "request" {
+	if isReq {
 		uniq := map[string]bool{}
 		for _, id := range seenIDs {
 			if !uniq[id] {
@@ -587,7 +635,7 @@ func runC08(c *vh.Case, spec c08Spec) {
 		}
 	}
 	// a protocol-following client has every message exactly once, in order
-	if followed && !purgedSeen && spec.Stream == "request" && len(seenIDs) > 0 {
+	if followed && !purgedSeen && isReq && len(seenIDs) > 0 {
 		count := map[int]int{}
 		prev := -1
 		for k, ex := range exs {
